@@ -1,4 +1,81 @@
-(* placeholder until the C01 theorems land *)
-From Coq Require Import List.
-Require Import AOV.base.Num AOV.model.SlopeCov.
-Theorem C01_placeholder : True. Proof. exact I. Qed.
+(* C01 -- Slope covariance matrix equals the true covariance of the WFS slopes.
+   Model: coq/model/SlopeCov.v (hand-written, tied by correspondence); compute_covariance_xx/yy/xy and
+   structure_function_vk are regenerated from slopecovariance.py on every run (coq/gen/Gen_slopecov.v).
+   Proved here: the layout (all x then all y slopes per sensor), that only the lower block triangle is
+   written, additivity over layers, the r0^(-5/3) and wavelength-product scalings, when the OR-mirroring is
+   sound, the polarisation identity behind "covariance of two finite-difference slopes", and that the
+   xx / yy formulas are that identity for equal sub-aperture diameters.  NOT proved: entry-wise equality
+   with the slope covariance for arbitrary sensors -- it is false (known findings C01-...); inside the guard
+   (identical point-symmetric sensors) it is checked numerically by the falsifier against
+   harness/slopecov_common.spec_matrix. *)
+From Coq Require Import Reals List Arith.
+Require Import AOV.base.Num AOV.base.NumR AOV.base.Cplx AOV.model.Mat AOV.model.SlopeCov AOV.gen.Gen_slopecov
+               AOV.proofs.Mat_proofs AOV.proofs.C01_proofs.
+Import ListNotations.
+Local Open Scope R_scope.
+
+(* entries are ordered per sensor as all x-slopes then all y-slopes: every index decomposes uniquely *)
+Theorem C01_layout_x_then_y_per_sensor : forall T (ws : list (@wfs T)) d r, (r < total2 ws)%nat ->
+  exists ! '(w, a, k), (w < length ws)%nat /\ (a <= 1)%nat /\ (k < n_subaps (nth w ws d))%nat /\
+                       r = (offset ws w + a * n_subaps (nth w ws d) + k)%nat.
+Proof. intros T. exact (@block_decomp T). Qed.
+Print Assumptions C01_layout_x_then_y_per_sensor.
+
+(* only sensor pairs j <= i are written (any numeric carrier); shape is 2 total x 2 total *)
+Theorem C01_only_lower_block_triangle_written : forall T (O : NumOps T) D ws ls i j r c,
+  (i < j)%nat -> (j < length ws)%nat ->
+  (offset ws i <= r < offset ws (S i))%nat -> (offset ws j <= c < offset ws (S j))%nat ->
+  gent O (assemble_seq O D ws ls) r c = nzero O.
+Proof. intros T O. exact (@assemble_seq_block_triangular T O). Qed.
+Print Assumptions C01_only_lower_block_triangle_written.
+
+Theorem C01_additive_over_layers : forall G K D ws ls1 ls2,
+  assemble_seq (ROps G K) D ws (ls1 ++ ls2)
+  = madd (ROps G K) (assemble_seq (ROps G K) D ws ls1) (assemble_seq (ROps G K) D ws ls2).
+Proof. exact assemble_seq_app. Qed.
+Print Assumptions C01_additive_over_layers.
+
+Theorem C01_scales_as_r0_minus_five_thirds : forall G K D s ws ls, 0 < s ->
+  Forall (fun l => 0 < l_r0 l /\ 0 < l_L0 l) ls ->
+  assemble_seq (ROps G K) D ws (map (scale_r0 s) ls) = mscal (Rpower s (-5/3)) (assemble_seq (ROps G K) D ws ls).
+Proof. exact assemble_seq_scale_r0. Qed.
+Print Assumptions C01_scales_as_r0_minus_five_thirds.
+
+Theorem C01_scales_as_product_of_wavelengths : forall G K D s ws ls,
+  assemble_seq (ROps G K) D (map (scale_wvl s) ws) ls = mscal (s * s) (assemble_seq (ROps G K) D ws ls).
+Proof. exact assemble_seq_scale_wvl. Qed.
+Print Assumptions C01_scales_as_product_of_wavelengths.
+
+(* the bitwise-OR mirroring yields a symmetric matrix provided the two patterns it combines agree
+   (one zero, or equal); without that proviso it does not *)
+Theorem C01_mirror_symmetric_when_sound : forall G K n (M : list (list R)), wf_mat n n M ->
+  (forall i j, (i < n)%nat -> (j < n)%nat -> ent M i j = 0 \/ ent M j i = 0 \/ ent M i j = ent M j i) ->
+  msym (mirror (ROps G K) M).
+Proof. exact mirror_sym. Qed.
+Print Assumptions C01_mirror_symmetric_when_sound.
+Theorem C01_mirror_unsound_otherwise : forall G K,
+  wf_mat 2 2 mirror_ce /\ ~ msym (mirror (ROps G K) mirror_ce).
+Proof. intros G K. destruct (mirror_not_sym_without_proviso G K) as (H1 & _ & _ & _ & H2). split; assumption. Qed.
+
+(* covariance of two phase differences from the structure function (any pre-inner-product space) *)
+Theorem C01_polarisation : forall (H : Type) (ip : H -> H -> R) (hsub : H -> H -> H),
+  (forall a b, ip a b = ip b a) -> (forall a b c, ip (hsub a b) c = ip a c - ip b c) ->
+  forall (P : Type) (phi : P -> H) (a b c d : P),
+  ip (hsub (phi a) (phi b)) (hsub (phi c) (phi d))
+  = (Dfun H ip hsub P phi a d + Dfun H ip hsub P phi b c - Dfun H ip hsub P phi a c - Dfun H ip hsub P phi b d) / 2.
+Proof. exact polarisation. Qed.
+Print Assumptions C01_polarisation.
+
+(* the generated xx / yy block formulas are that polarisation for equal diameters *)
+Theorem C01_xx_yy_are_the_polarisation_for_equal_diameters : forall G K ux uy d r0 L0,
+  compute_covariance_xx (ROps G K) (ux, uy) d d r0 L0
+  = structure_function_vk (ROps G K) (vnorm (ux - d) uy) r0 L0 + structure_function_vk (ROps G K) (vnorm (ux + d) uy) r0 L0
+    - 2 * structure_function_vk (ROps G K) (vnorm ux uy) r0 L0 /\
+  compute_covariance_yy (ROps G K) (ux, uy) d d r0 L0
+  = structure_function_vk (ROps G K) (vnorm ux (uy - d)) r0 L0 + structure_function_vk (ROps G K) (vnorm ux (uy + d)) r0 L0
+    - 2 * structure_function_vk (ROps G K) (vnorm ux uy) r0 L0.
+Proof. intros; split; [apply cov_xx_equal_diam|apply cov_yy_equal_diam]. Qed.
+Print Assumptions C01_xx_yy_are_the_polarisation_for_equal_diameters.
+
+Example C01_nonvacuous : total2 [Build_wfs [[true; true]; [true; false]] 1 0 0 0 1 : @wfs R] = 6%nat.
+Proof. reflexivity. Qed.
